@@ -74,13 +74,48 @@ def coq_makefile():
             raise RuntimeError("coq_makefile failed: " + out)
 
 
+TRANSLATOR = dict(ok=True, msg="")
+
+
+def run_translator():
+    """regenerate coq/Generated.v from /repo's sources (written only when the content changes)"""
+    rc, out = sh([sys.executable, os.path.join(VERIF, "translator", "gen.py")], env=dict(ENV, VERIF_REPO=REPO))
+    TRANSLATOR["ok"] = rc == 0
+    TRANSLATOR["msg"] = out.strip()[-1500:]
+    return rc == 0
+
+
 def coq_make(targets=None, timeout=3000):
-    """Full .vo build (never -vos) of the development, incremental."""
+    """Full .vo build (never -vos) of the development, incremental; -k so that a file which no longer
+    compiles only affects the properties that depend on it (see coq_deps)."""
     with Lock("coq"):
+        run_translator()
         coq_makefile()
-        cmd = ["make", "-j%d" % NPROC] + (targets or [])
+        cmd = ["make", "-k", "-j%d" % NPROC] + (targets or [])
         rc, out = sh(cmd, cwd=COQ, timeout=timeout)
         return rc == 0, out
+
+
+def coq_failed_files(out):
+    return set(re.findall(r'File "\./([\w/]+)\.v", line \d+, characters [\d-]+:\s*\n\s*Error', out)) | \
+        set(re.findall(r"\[(?:\./)?([\w/]+)\.vo\] Error", out))
+
+
+def coq_deps(vfile):
+    """transitive MC dependencies of a .v file (module names), from its Require lines"""
+    seen, todo = set(), [vfile]
+    while todo:
+        f = todo.pop()
+        try:
+            src = strip_comments(open(os.path.join(COQ, f)).read())
+        except OSError:
+            continue
+        for m in re.finditer(r"From\s+MC\s+Require\s+(?:Import|Export)?\s*([\w\s.]+?)\.\s", src):
+            for mod in m.group(1).split():
+                if mod not in seen:
+                    seen.add(mod)
+                    todo.append(mod.replace(".", "/") + ".v")
+    return seen
 
 
 FORBIDDEN = re.compile(r"\b(Admitted|admit|Axiom|Axioms|Parameter|Parameters|Conjecture|Conjectures|"
@@ -141,7 +176,14 @@ def stage_a(prop, make_targets=None):
     # the property file may contain only Theorem/Example statements closed by exact / computation
     ok, out = coq_make(make_targets)
     if not ok:
-        res["failures"].append("coq build failed:\n" + out[-3000:])
+        failed = coq_failed_files(out)
+        mine = coq_deps(os.path.join("Properties", prop + ".v"))
+        if not failed or (failed & mine):
+            res["failures"].append("coq build failed (%s):\n%s" % (", ".join(sorted(failed & mine)) or "?", out[-3000:]))
+            return res
+        res["unrelated_build_failures"] = sorted(failed)
+    if "Generated" in coq_deps(os.path.join("Properties", prop + ".v")) and not TRANSLATOR["ok"]:
+        res["failures"].append("translator failed (the generated part of the model is not tied to the source): " + TRANSLATOR["msg"])
         return res
     with Lock("coq"):
         rc, out = sh(["coqc", "-Q", ".", "MC", os.path.join("Properties", prop + ".v")], cwd=COQ, timeout=1800)
